@@ -1,6 +1,6 @@
 """Sidecar contracts for tefra/xsdata, keyed by module:QualName (see DESIGN.md §2.1)."""
 
-MODULES = ["c06_dates", "c03_namespaces", "c05_converters", "c10_strictness", "c09_infoset", "c06_datatypes", "c05_factory", "c14_history", "c17_client", "c03_writer"]
+MODULES = ["c06_dates", "c03_namespaces", "c05_converters", "c10_strictness", "c09_infoset", "c06_datatypes", "c05_factory", "c14_history", "c17_client", "c03_writer", "c15_clean_failure"]
 
 # helpers executed by inlining their real source instead of through a contract (listed in evidence)
 INLINE = ["calendar:isleap"]
@@ -8,6 +8,15 @@ INLINE = ["calendar:isleap"]
 NODES = "xsdata.formats.dataclass.parsers.nodes"
 
 PROPERTIES = {
+    "C15": {
+        "min_obligations": 100,
+        "canaries": [
+            {"name": "proxy-converter-catches-typeerror", "function": "xsdata.formats.converter:ProxyConverter.deserialize",
+             "module": "xsdata.formats.converter", "target": "ProxyConverter.deserialize",
+             "old": "except ValueError as e", "new": "except TypeError as e"},
+        ],
+        "decided": [], "not_decided": [], "bounded": [], "trusted_base": [], "assumptions": [],
+    },
     "C17": {
         "min_obligations": 40,
         "canaries": [
